@@ -2,7 +2,8 @@
 
 src/twisted/web/_responses.py (``RESPONSES`` dict display over module-level integer constants) and the
 default in ``Request.setResponseCode`` (``RESPONSES.get(code, b"...")``) -> coq/C20/Gen.v
-``responses : N -> list N``.  Fail-closed: anything that is not a literal table stops the translation.
+``responses : N -> list N``; src/twisted/web/_abnf.py ``_istoken`` (per-byte loop over a literal table) ->
+``istoken_table : list N``, which coq/C20/GenCheck.v proves equal to the model's ``is_tchar`` on every byte.  Fail-closed: anything that is not a literal table stops the translation.
 """
 from __future__ import annotations
 
@@ -72,6 +73,42 @@ def _default(src: str) -> bytes:
     raise Untranslatable("Request.setResponseCode not found")
 
 
+def _tchars(src: str) -> bytes:
+    """_abnf._istoken must be the per-byte loop over a literal table:
+         for c in b:
+             if c not in (<bytes literals>): return False
+         return b != b""
+       -> the table.  Any other shape (a regular expression, a helper call, ...) is refused."""
+    mod = ast.parse(src)
+    for f in mod.body:
+        if isinstance(f, ast.FunctionDef) and f.name == "_istoken":
+            body = [st for st in f.body if not (isinstance(st, ast.Expr) and isinstance(st.value, ast.Constant)
+                                                and isinstance(st.value.value, str))]
+            if len(f.args.args) != 1 or len(body) != 2:
+                _fail(f, "_istoken: unexpected shape")
+            arg = f.args.args[0].arg
+            loop, ret = body
+            if not (isinstance(loop, ast.For) and isinstance(loop.target, ast.Name) and isinstance(loop.iter, ast.Name)
+                    and loop.iter.id == arg and not loop.orelse and len(loop.body) == 1):
+                _fail(loop, "_istoken: not a loop over the bytes of its argument")
+            test = loop.body[0]
+            if not (isinstance(test, ast.If) and not test.orelse and len(test.body) == 1
+                    and isinstance(test.body[0], ast.Return) and isinstance(test.body[0].value, ast.Constant)
+                    and test.body[0].value.value is False
+                    and isinstance(test.test, ast.Compare) and len(test.test.ops) == 1
+                    and isinstance(test.test.ops[0], ast.NotIn) and isinstance(test.test.left, ast.Name)
+                    and test.test.left.id == loop.target.id and isinstance(test.test.comparators[0], ast.Constant)
+                    and type(test.test.comparators[0].value) is bytes):
+                _fail(test, "_istoken: the loop body is not `if c not in <bytes literal>: return False`")
+            if not (isinstance(ret, ast.Return) and isinstance(ret.value, ast.Compare) and len(ret.value.ops) == 1
+                    and isinstance(ret.value.ops[0], ast.NotEq) and isinstance(ret.value.left, ast.Name)
+                    and ret.value.left.id == arg and isinstance(ret.value.comparators[0], ast.Constant)
+                    and ret.value.comparators[0].value == b""):
+                _fail(ret, "_istoken: the final statement is not `return b != b\"\"`")
+            return test.test.comparators[0].value
+    raise Untranslatable("_abnf._istoken not found")
+
+
 def _lst(b: bytes) -> str:
     return "[" + "; ".join(str(x) for x in b) + "]" if b else "[]"
 
@@ -81,15 +118,18 @@ def generate(repo: str, out_path: str):
     try:
         table = _table(open(os.path.join(repo, "src/twisted/web/_responses.py")).read())
         default = _default(open(os.path.join(repo, "src/twisted/web/http.py")).read())
+        tchars = _tchars(open(os.path.join(repo, "src/twisted/web/_abnf.py")).read())
     except (Untranslatable, OSError, SyntaxError) as e:
         return f"c20 translator: {e}"
     lines = ["(** GENERATED by translate/c20.py from src/twisted/web/_responses.py (RESPONSES) and the default in",
-             "    Request.setResponseCode (src/twisted/web/http.py).  Do not edit. *)",
+             "    Request.setResponseCode (src/twisted/web/http.py), and the token byte table of _abnf._istoken.  Do not edit. *)",
              "From Coq Require Import List NArith.", "Import ListNotations.", "Local Open Scope N_scope.", "",
              "Definition responses (c : N) : list N :=", "  match c with"]
     for code in sorted(table):
         lines.append(f"  | {code} => {_lst(table[code])}")
     lines.append(f"  | _ => {_lst(default)}")
     lines.append("  end.")
+    lines += ["", "(** the byte table of twisted.web._abnf._istoken (a non-empty string of these bytes is a token) *)",
+              f"Definition istoken_table : list N := {_lst(bytes(sorted(set(tchars))))}."]
     write_if_changed(out_path, "\n".join(lines) + "\n")
     return None
